@@ -14,6 +14,7 @@ import (
 	"fmt"
 	"math/rand"
 	"os"
+	"sort"
 	"strconv"
 	"strings"
 	"sync"
@@ -38,11 +39,13 @@ type gen struct {
 	blocks []string // blocks of the current function activation that may be left from here
 	tags   []string // tags of enclosing tagbodies in the current function activation
 	bctr   int
-	maker  string // name of a defined function that returns a closure counting up from its argument
-	ctl    bool   // profile: generate non-local exits, cleanups, errors
-	inline bool   // profile "defs": also inline lambda calls ((lambda (p) ...) arg)
-	rctr   int    // resources (mutexes, files) made so far in this program
-	noExit int    // > 0 while inside a position from which an exit is not generated (cleanup forms, binding init forms)
+	maker  string          // name of a defined function that returns a closure counting up from its argument
+	ctl    bool            // profile: generate non-local exits, cleanups, errors
+	inline bool            // profile "defs": also inline lambda calls ((lambda (p) ...) arg)
+	rctr   int             // resources (mutexes, files) made so far in this program
+	noExit int             // > 0 while inside a position from which an exit is not generated (cleanup forms, binding init forms)
+	clash  bool            // profile "core": closures called where a variable of the captured name is bound (finding C01-F4)
+	feats  map[string]bool // features of the current program that open findings are about (stimulus field "features")
 }
 type fdef struct {
 	name  string
@@ -180,6 +183,9 @@ func (g *gen) num(d int, vars []string) N {
 		v := vars[g.rng.Intn(len(vars))]
 		lam := N{"k": "lam", "ps": []any{p}, "body": []any{g.m(N{"k": "add", "a": N{"k": "var", "n": p}, "b": N{"k": "var", "n": v}})}}
 		return g.m(N{"k": "fcall", "f": lam, "args": []any{g.noex(func() N { return g.num(d-1, vars) })}, "spread": false, "inline": true})
+	}
+	if g.one(9) {
+		return g.more(d, vars)
 	}
 	switch ch := g.rng.Intn(26); {
 	case ch < 3:
@@ -328,6 +334,163 @@ func (g *gen) num(d int, vars []string) N {
 	}
 }
 
+// valuesForm: a form with zero to three values
+func (g *gen) valuesForm(d int, vars []string) N {
+	return g.noex(func() N {
+		if g.one(4) {
+			return N{"k": "trunc", "a": g.num(d-1, vars), "b": lit(I(1 + g.rng.Intn(3)))}
+		}
+		vs := []any{}
+		for i := g.rng.Intn(4); i > 0; i-- {
+			vs = append(vs, g.num(d-1, vars))
+		}
+		return g.through(N{"k": "values", "es": vs}, d, vars)
+	})
+}
+
+// psetqValue: the psetq form as a statement or, sometimes, with its value (nil) observed: open finding C01-F5 is about that value
+func (g *gen) psetqValue(e N) N {
+	if g.clash && g.one(3) {
+		g.feats["psetq-value"] = true
+		return g.m(g.orZero(e))
+	}
+	return e
+}
+
+// more: assignment in parallel and of multiple values, forms that select or collect values, the map family, prog / prog*,
+// the simple loop, recover, incf / decf, push / pop
+func (g *gen) more(d int, vars []string) N {
+	v := func(n string) N { return N{"k": "var", "n": n} }
+	switch g.rng.Intn(14) {
+	case 0:
+		// (let ((a e1) (b e2)) (psetq a b b (+ a 1)) (- a b))
+		a, b := g.fresh(), g.fresh()
+		return N{"k": "let", "bs": []any{N{"n": a, "e": g.noex(func() N { return g.num(d-2, vars) })}, N{"n": b, "e": g.noex(func() N { return g.num(d-2, vars) })}},
+			"body": []any{g.psetqValue(N{"k": "psetq", "ps": []any{N{"n": a, "e": g.m(v(b))}, N{"n": b, "e": g.m(N{"k": "add", "a": v(a), "b": lit(I(1))})}}}),
+				g.m(N{"k": "sub", "a": v(a), "b": v(b)})}}
+	case 1:
+		// (let ((a 0) (b 0) (c 0)) (multiple-value-setq (a b c) values) (+ a (or b 0)))
+		a, b, c := g.fresh(), g.fresh(), g.fresh()
+		return N{"k": "let", "bs": []any{N{"n": a, "e": lit(I(0))}, N{"n": b, "e": lit(I(0))}, N{"n": c, "e": lit(I(7))}},
+			"body": []any{g.m(g.orZero(N{"k": "mvsetq", "vars": []any{a, b, c}, "e": g.valuesForm(d-1, vars)})),
+				g.m(g.orZero(v(c))), g.m(N{"k": "add", "a": g.orZero(v(a)), "b": g.orZero(v(b))})}}
+	case 2:
+		// (car (cdr (multiple-value-list values)))
+		var e N = N{"k": "mvlist", "e": g.valuesForm(d-1, vars)}
+		if g.one(2) {
+			e = N{"k": "cdr", "a": e}
+		}
+		return g.orZero(g.m(N{"k": "car", "a": e}))
+	case 3:
+		return g.orZero(g.m(N{"k": "nthv", "i": g.rng.Intn(4), "e": g.valuesForm(d-1, vars)}))
+	case 4:
+		// (multiple-value-bind (a b) (multiple-value-prog1 values form) (+ a b))
+		a, b := g.fresh(), g.fresh()
+		es := []any{g.valuesForm(d-1, vars)}
+		for i := g.rng.Intn(3); i > 0; i-- {
+			es = append(es, g.num(d-2, vars))
+		}
+		return N{"k": "mvb", "vars": []any{a, b}, "e": N{"k": "mvprog1", "es": es}, "body": []any{g.m(N{"k": "add", "a": g.orZero(v(a)), "b": g.orZero(v(b))})}}
+	case 5:
+		es := []any{g.num(d-1, vars), g.num(d-1, vars)}
+		for i := g.rng.Intn(2); i > 0; i-- {
+			es = append(es, g.num(d-2, vars))
+		}
+		return g.m(N{"k": "prog2", "es": es})
+	case 6:
+		// (multiple-value-call #'+ values values): every value of every form is an argument
+		args := []any{}
+		for i := g.rng.Intn(3); i >= 0; i-- {
+			args = append(args, g.valuesForm(d-1, vars))
+		}
+		return g.m(N{"k": "mvcall", "f": N{"k": "fnref", "name": "+"}, "args": args})
+	case 7:
+		// the map family over (list ...): mapc for effect (its value is the list), mapcan concatenating, maplist on the tails
+		p, acc := g.fresh(), g.fresh()
+		es := []any{}
+		for i := g.rng.Intn(4); i > 0; i-- {
+			es = append(es, g.noex(func() N { return g.num(d-2, vars) }))
+		}
+		l := N{"k": "list", "es": es}
+		switch g.rng.Intn(3) {
+		case 0:
+			f := N{"k": "lam", "ps": []any{p}, "body": []any{g.m(N{"k": "setq", "n": acc, "e": N{"k": "add", "a": v(acc), "b": v(p)}})}}
+			if len(es) == 0 {
+				return g.leaf(vars) // (mapc f nil) is finding C14-F3
+			}
+			return N{"k": "let", "bs": []any{N{"n": acc, "e": lit(I(0))}},
+				"body": []any{g.m(g.orZero(N{"k": "car", "a": N{"k": "mapc", "f": f, "l": l}})), g.m(N{"k": "add", "a": v(acc), "b": lit(I(0))})}}
+		case 1:
+			f := N{"k": "lam", "ps": []any{p}, "body": []any{N{"k": "if", "c": g.m(N{"k": "lt", "a": v(p), "b": lit(I(g.rng.Intn(6)))}),
+				"a": lit(nilV()), "b": N{"k": "list", "es": []any{v(p), g.m(N{"k": "add", "a": v(p), "b": lit(I(1))})}}}}}
+			var e N = N{"k": "mapcan", "f": f, "l": l}
+			if g.one(2) {
+				e = N{"k": "cdr", "a": e}
+			}
+			return g.orZero(g.m(N{"k": "car", "a": e}))
+		}
+		f := N{"k": "lam", "ps": []any{p}, "body": []any{g.m(g.orZero(N{"k": "car", "a": N{"k": "cdr", "a": v(p)}}))}}
+		return g.orZero(g.m(N{"k": "car", "a": N{"k": "maplist", "f": f, "l": l}}))
+	case 8, 9:
+		// (prog ((i 0) (acc e)) top (when (< i n) (setq acc (+ acc i)) (setq i (+ i 1)) (go top)) (return acc)): tags are not
+		// evaluated, the go is backward, the value leaves through (return ...); without it a prog is nil
+		i, acc := g.fresh(), g.fresh()
+		g.bctr++
+		top, out := fmt.Sprintf("p%da", g.bctr), fmt.Sprintf("p%db", g.bctr)
+		star := g.one(2)
+		accInit := g.noex(func() N { return g.num(d-2, vars) })
+		if star && g.one(2) {
+			accInit = N{"k": "add", "a": v(i), "b": lit(I(3))} // prog* sees the variable bound before
+		}
+		loopBody := []any{g.m(N{"k": "setq", "n": acc, "e": N{"k": "add", "a": v(acc), "b": v(i)}}),
+			N{"k": "setq", "n": i, "e": N{"k": "add", "a": v(i), "b": lit(I(1))}}, N{"k": "go", "tag": top}}
+		stmts := []any{
+			N{"tag": top, "e": N{"k": "when", "c": N{"k": "lt", "a": v(i), "b": lit(I(g.rng.Intn(4)))}, "body": loopBody}},
+		}
+		if g.one(2) {
+			// a statement that may leave the prog: return-from an enclosing block, go to a tag of an enclosing tagbody
+			stmts = append(stmts, N{"tag": "", "e": g.num(d-2, vars)})
+		}
+		if g.one(2) {
+			// a forward go over a statement
+			stmts = append(stmts, N{"tag": "", "e": N{"k": "go", "tag": out}}, N{"tag": "", "e": g.m(lit(I(99)))}, N{"tag": out, "e": g.m(v(acc))})
+		}
+		if !g.one(4) {
+			stmts = append(stmts, N{"tag": "", "e": N{"k": "retfrom", "name": "nil", "e": g.m(N{"k": "add", "a": v(acc), "b": lit(I(0))})}})
+		}
+		return g.orZero(N{"k": "prog", "star": star, "bs": []any{N{"n": i, "e": lit(I(0))}, N{"n": acc, "e": accInit}}, "stmts": stmts})
+	case 10:
+		// (let ((i 0)) (loop (setq i (+ i 1)) (when (< n i) (return i))))
+		i := g.fresh()
+		body := []any{g.m(N{"k": "setq", "n": i, "e": N{"k": "add", "a": v(i), "b": lit(I(1))}})}
+		if g.one(2) {
+			body = append(body, g.noex(func() N { return g.num(d-2, vars) }))
+		}
+		body = append(body, N{"k": "when", "c": N{"k": "lt", "a": lit(I(g.rng.Intn(3))), "b": v(i)}, "body": []any{N{"k": "retfrom", "name": "nil", "e": g.m(v(i))}}})
+		return N{"k": "let", "bs": []any{N{"n": i, "e": lit(I(0))}}, "body": []any{N{"k": "sloop", "body": body}}}
+	case 11:
+		// (recover r on-recover form ...): the value of the forms, or of on-recover when one of them signals
+		rv := g.fresh()
+		body := g.body(d-1, vars)
+		if g.one(2) {
+			at := g.rng.Intn(len(body) + 1)
+			body = append(body[:at], append([]any{g.errorForm()}, body[at:]...)...)
+		}
+		return g.orZero(N{"k": "recover", "var": rv, "on": g.noex(func() N { return g.m(g.num(d-2, vars)) }), "body": body})
+	case 12:
+		// (let ((a e)) (incf a 2) (decf a) a)
+		a := g.fresh()
+		return N{"k": "let", "bs": []any{N{"n": a, "e": g.noex(func() N { return g.num(d-2, vars) })}},
+			"body": []any{g.m(N{"k": "incf", "n": a, "e": lit(I(1 + g.rng.Intn(3)))}), g.m(N{"k": "decf", "n": a, "e": g.m(lit(I(g.rng.Intn(3))))}), v(a)}}
+	default:
+		// (let ((l nil)) (push a l) (push b l) (+ (pop l) (or (car l) 0)))
+		l := g.fresh()
+		return N{"k": "let", "bs": []any{N{"n": l, "e": lit(nilV())}},
+			"body": []any{N{"k": "push", "e": g.num(d-2, vars), "n": l}, g.m(g.orZero(N{"k": "car", "a": N{"k": "push", "e": g.num(d-2, vars), "n": l}})),
+				g.m(N{"k": "add", "a": g.orZero(N{"k": "pop", "n": l}), "b": g.orZero(N{"k": "car", "a": v(l)})}), g.m(g.orZero(N{"k": "pop", "n": l})), g.orZero(N{"k": "pop", "n": l})}}
+	}
+}
+
 // through wraps a form in forms that hand on all its values (or, prog1 and a marker call, only the first)
 func (g *gen) through(e N, d int, vars []string) N {
 	for i := g.rng.Intn(3); i > 0; i-- {
@@ -419,6 +582,14 @@ func (g *gen) closure(d int, vars []string) N {
 		body = append(body, call())
 	}
 	body = append(body, g.m(N{"k": "add", "a": N{"k": "var", "n": c}, "b": lit(I(0))}))
+	if g.clash && g.one(4) {
+		// the closure is called where a variable of the same name as the captured one is bound: (let ((c 40)) (funcall f x) c)
+		// and the captured variable read afterwards: by the language rules the closure still reads and updates the variable
+		// it captured (open finding C01-F4 is about exactly this shape)
+		g.feats["closure-name-clash"] = true
+		body = []any{N{"k": "let", "bs": []any{N{"n": c, "e": lit(I(40 + g.rng.Intn(10)))}}, "body": body},
+			g.m(N{"k": "add", "a": N{"k": "var", "n": c}, "b": lit(I(0))})}
+	}
 	// (let* ((c init) (f (lambda (p) ...))) (funcall f x) ... c)
 	return N{"k": "letx", "bs": []any{N{"n": c, "e": g.noex(func() N { return g.num(d-2, vars) })}, N{"n": f, "e": lam}}, "body": body}
 }
@@ -786,8 +957,62 @@ func render(n N) string {
 		return fmt.Sprintf("(%s %s%s)", name, render(n["f"].(N)), rlist(n["args"].([]any)))
 	case "call":
 		return fmt.Sprintf("(%s%s)", n["f"], rlist(n["args"].([]any)))
-	case "mapcar":
-		return fmt.Sprintf("(mapcar %s %s)", render(n["f"].(N)), render(n["l"].(N)))
+	case "mapcar", "mapc", "mapcan", "maplist":
+		return fmt.Sprintf("(%s %s %s)", n["k"], render(n["f"].(N)), render(n["l"].(N)))
+	case "psetq":
+		var b strings.Builder
+		b.WriteString("(psetq")
+		for _, p := range n["ps"].([]any) {
+			pn := p.(N)
+			fmt.Fprintf(&b, " %s %s", pn["n"], render(pn["e"].(N)))
+		}
+		return b.String() + ")"
+	case "mvsetq":
+		var vs []string
+		for _, v := range n["vars"].([]any) {
+			vs = append(vs, v.(string))
+		}
+		return fmt.Sprintf("(multiple-value-setq (%s) %s)", strings.Join(vs, " "), render(n["e"].(N)))
+	case "mvlist":
+		return fmt.Sprintf("(multiple-value-list %s)", render(n["e"].(N)))
+	case "nthv":
+		return fmt.Sprintf("(nth-value %d %s)", n["i"], render(n["e"].(N)))
+	case "mvprog1":
+		return "(multiple-value-prog1" + rlist(n["es"].([]any)) + ")"
+	case "prog2":
+		return "(prog2" + rlist(n["es"].([]any)) + ")"
+	case "mvcall":
+		return fmt.Sprintf("(multiple-value-call %s%s)", render(n["f"].(N)), rlist(n["args"].([]any)))
+	case "prog":
+		var b strings.Builder
+		name := "prog"
+		if n["star"].(bool) {
+			name = "prog*"
+		}
+		var bs []string
+		for _, bd := range n["bs"].([]any) {
+			bn := bd.(N)
+			bs = append(bs, fmt.Sprintf("(%s %s)", bn["n"], render(bn["e"].(N))))
+		}
+		fmt.Fprintf(&b, "(%s (%s)", name, strings.Join(bs, " "))
+		for _, st := range n["stmts"].([]any) {
+			sn := st.(N)
+			if sn["tag"] != "" {
+				fmt.Fprintf(&b, " %s", sn["tag"])
+			}
+			fmt.Fprintf(&b, " %s", render(sn["e"].(N)))
+		}
+		return b.String() + ")"
+	case "sloop":
+		return "(loop" + rlist(n["body"].([]any)) + ")"
+	case "recover":
+		return fmt.Sprintf("(recover %s %s%s)", n["var"], render(n["on"].(N)), rlist(n["body"].([]any)))
+	case "incf", "decf":
+		return fmt.Sprintf("(%s %s %s)", n["k"], n["n"], render(n["e"].(N)))
+	case "push":
+		return fmt.Sprintf("(push %s %s)", render(n["e"].(N)), n["n"])
+	case "pop":
+		return fmt.Sprintf("(pop %s)", n["n"])
 	case "dolist":
 		return fmt.Sprintf("(dolist (%s %s %s)%s)", n["var"], render(n["l"].(N)), render(n["res"].(N)), rlist(n["body"].([]any)))
 	case "dotimes":
@@ -933,9 +1158,10 @@ func c01Gen(args []string) {
 	w := bufio.NewWriter(os.Stdout)
 	defer w.Flush()
 	enc := json.NewEncoder(w)
-	g := &gen{rng: rand.New(rand.NewSource(int64(seed))), ctl: profile == "ctl", inline: profile == "defs"}
+	g := &gen{rng: rand.New(rand.NewSource(int64(seed))), ctl: profile == "ctl", inline: profile == "defs", clash: profile == "core"}
 	for t := 1; t <= ntr; t++ {
 		g.mark, g.funcs, g.blocks, g.tags, g.maker = 0, nil, nil, nil, ""
+		g.feats = map[string]bool{}
 		var defs []any
 		var defsrc []string
 		for i := 0; i < 2; i++ {
@@ -1056,6 +1282,11 @@ func c01Gen(args []string) {
 		}
 		g.rctr = 0
 		main := N{"k": "progn", "es": append(forced, g.body(depth, nil)...)}
-		_ = enc.Encode(N{"id": t, "defs": defs, "ast": main, "defsrc": defsrc, "src": render(main)})
+		feats := []string{}
+		for f := range g.feats {
+			feats = append(feats, f)
+		}
+		sort.Strings(feats)
+		_ = enc.Encode(N{"id": t, "defs": defs, "ast": main, "defsrc": defsrc, "src": render(main), "features": feats})
 	}
 }
